@@ -686,7 +686,12 @@ theorem ellOperand_single {i : Expr} (h : ellOperand i = true) : ∃ p, i.ptree 
   | flat i b e => simp only [Expr.ptree]; exact ⟨_, rfl⟩
   | brackets i b e => simp only [Expr.ptree]; exact ⟨_, rfl⟩
   | concat cs b e => simp only [Expr.ptree]; exact ⟨_, rfl⟩
-  | _ => simp [ellOperand, Expr.isAxis, Expr.isFlat, Expr.isBrackets, Expr.isConcat] at h
+  | ellipsis j d b e =>
+    have hj : isAnonAxisNone j = true := by
+      simpa [ellOperand, Expr.isAxis, Expr.isFlat, Expr.isBrackets, Expr.isConcat, isEllAnon] using h
+    simp only [Expr.ptree, anonNone_anon hj, if_true]
+    exact ⟨_, rfl⟩
+  | _ => simp [ellOperand, Expr.isAxis, Expr.isFlat, Expr.isBrackets, Expr.isConcat, isEllAnon] at h
 
 theorem ellOperand_ndim {i : Expr} {inBr : Bool} (h : ellOperand i = true) (hp : PT inBr false i = true) :
     (i.ndim == some 0) = false := by
@@ -698,7 +703,13 @@ theorem ellOperand_ndim {i : Expr} {inBr : Bool} (h : ellOperand i = true) (hp :
     simp only [Expr.ndim, beq_eq_false_iff_ne, ne_eq]
     exact hp.1.2
   | concat cs b e => simp [Expr.ndim]
-  | _ => simp [ellOperand, Expr.isAxis, Expr.isFlat, Expr.isBrackets, Expr.isConcat] at h
+  | ellipsis j d b e =>
+    have hj : isAnonAxisNone j = true := by
+      simpa [ellOperand, Expr.isAxis, Expr.isFlat, Expr.isBrackets, Expr.isConcat, isEllAnon] using h
+    cases j with
+    | axis n v bj ej => simp [Expr.ndim]
+    | _ => simp [isAnonAxisNone] at hj
+  | _ => simp [ellOperand, Expr.isAxis, Expr.isFlat, Expr.isBrackets, Expr.isConcat, isEllAnon] at h
 
 /-! ### `findOp` on known token lists -/
 
